@@ -16,6 +16,14 @@ let handle kind a =
       let st = List.map n_of_int [0;0;128;0] in
       let bs = bytes_of_hex a.(0) @ st @ st @ st @ st @ List.init 8 (fun _ -> n_of_int 0) in
       Some (match rfreq bs with Ok _ -> "Ok" | Err -> "Err" | Panic _ -> "Panic")
+  | "gffit" ->
+      (* the attributes column (hex): every item the fused iterator yields, in order *)
+      let show = function
+        | IOk (t, VString v) -> "O" ^ hex_of_bytes t ^ ":S" ^ hex_of_bytes v
+        | IOk (t, VArray l) -> "O" ^ hex_of_bytes t ^ ":A" ^ String.concat "," (List.map hex_of_bytes l)
+        | IErr -> "E" in
+      let r = gff_attr_run (bytes_of_hex a.(0)) in
+      Some (if r = [] then "_" else String.concat ";" (List.map show r))
   | _ -> None
 
 let () = run_driver handle
